@@ -71,3 +71,49 @@ package main
 //@   nosafety
 //@   requires c != nil && newCfg != nil && oldCfg != nil
 //@   call DisposePeer args v *vrf.VRF, a *bnet.IP requires v == oldCfg.VRF && a == oldCfg.PeerAddress
+
+// The session settings are those of the neighbor entry, field by field: every
+// setting of the entry that affects a session reaches the PeerConfig that is
+// compared (NeedsRestart) and started.
+//@ spec
+//@ func spec_afOK(baf *config.AddressFamilyConfig, af *bgpserver.AddressFamilyConfig, bn *config.BGPNeighbor) bool {
+//@ 	if af == nil {
+//@ 		return false
+//@ 	}
+//@ 	if len(af.ImportFilterChain) != len(bn.ImportFilterChain) || len(af.ExportFilterChain) != len(bn.ExportFilterChain) {
+//@ 		return false
+//@ 	}
+//@ 	if verif_arrayof(af.ImportFilterChain) != verif_arrayof(bn.ImportFilterChain) || verif_arrayof(af.ExportFilterChain) != verif_arrayof(bn.ExportFilterChain) {
+//@ 		return false
+//@ 	}
+//@ 	if baf == nil {
+//@ 		return !af.AddPathRecv && af.AddPathSend.BestOnly && !af.NextHopExtended
+//@ 	}
+//@ 	if af.NextHopExtended != baf.NextHopExtended {
+//@ 		return false
+//@ 	}
+//@ 	if baf.AddPath == nil {
+//@ 		return !af.AddPathRecv && af.AddPathSend.BestOnly
+//@ 	}
+//@ 	if af.AddPathRecv != baf.AddPath.Receive {
+//@ 		return false
+//@ 	}
+//@ 	if baf.AddPath.Send == nil {
+//@ 		return af.AddPathSend.BestOnly
+//@ 	}
+//@ 	return af.AddPathSend.BestOnly == !baf.AddPath.Send.Multipath && af.AddPathSend.MaxPaths == uint(baf.AddPath.Send.PathCount)
+//@ }
+//@ end
+//@ contract (*bgpConfigurator).newPeerConfig
+//@   props C36
+//@   nosafety
+//@   requires c != nil && bn != nil && bn.PeerAddressIP != nil
+//@   ensures result != nil && result.AdminEnabled == !bn.Disabled && result.AuthenticationKey == bn.AuthenticationKey && result.LocalAS == bn.LocalAS && result.PeerAS == bn.PeerAS
+//@   ensures result.PeerAddress == bn.PeerAddressIP && result.LocalAddress == bn.LocalAddressIP && result.TTL == bn.TTL && result.HoldTime == bn.HoldTimeDuration && result.KeepAlive == bn.HoldTimeDuration/3
+//@   ensures result.VRF == vrf && result.AdvertiseIPv4MultiProtocol == bn.AdvertiseIPv4MultiProtocol
+//@   ensures result.Passive == (bn.Passive != nil && *bn.Passive) && result.RouteServerClient == (bn.RouteServerClient != nil && *bn.RouteServerClient) && result.RouteReflectorClient == (bn.RouteReflectorClient != nil && *bn.RouteReflectorClient)
+//@   ensures bn.ClusterIDIP != nil ==> result.RouteReflectorClusterID == bn.ClusterIDIP.ToUint32()
+//@   ensures (result.IPv4 != nil) == (bn.PeerAddressIP.IsIPv4() || bn.IPv4 != nil)
+//@   ensures (result.IPv6 != nil) == (!bn.PeerAddressIP.IsIPv4() || bn.IPv6 != nil)
+//@   ensures result.IPv4 != nil ==> spec_afOK(bn.IPv4, result.IPv4, bn)
+//@   ensures result.IPv6 != nil ==> spec_afOK(bn.IPv6, result.IPv6, bn)
